@@ -384,6 +384,33 @@ func (c *c11case) indexAll(s val.Value, extra []val.Value) {
 		}
 	}
 	c.res.Tag("op:index/" + s.K.String())
+	// the same value as a prefix of a longer one (an array with spare capacity behind its last element): every
+	// bound beyond its own length is an index error, whatever lies behind it
+	if s.K == val.Arr && n <= 6 {
+		long := calcrun.ToCalc(val.ArrV(append(append([]val.Value{}, s.A...), val.IntV(91), val.IntV(92), val.IntV(93))))
+		pre, err := long.Index(value.NewInt(0), value.NewInt(n))
+		if err == nil {
+			for i := 0; i <= n+4; i++ {
+				for j := i; j <= n+4; j++ {
+					in := fmt.Sprintf("prefix-of-longer %s[%d:%d]", val.Debug(s), i, j)
+					c.guard(in, func() {
+						got, e := pre.Index(value.NewInt(i), value.NewInt(j))
+						if ok, d := outcomeOK(val.Slice(s, val.IntV(int64(i)), val.IntV(int64(j))), got, e); !ok {
+							c.fail("value-model", in, d)
+						}
+						c.res.Add("tuples", 1)
+					})
+				}
+				in := fmt.Sprintf("prefix-of-longer %s[%d]", val.Debug(s), i)
+				c.guard(in, func() {
+					got, e := pre.Index(value.NewInt(i))
+					if ok, d := outcomeOK(val.IndexAt(s, val.IntV(int64(i))), got, e); !ok {
+						c.fail("value-model", in, d)
+					}
+				})
+			}
+		}
+	}
 }
 
 // randValue draws a value; depth bounds array nesting.
